@@ -44,9 +44,18 @@ Record static := { x_agencies : list agency; x_routes : list route; x_stops : li
                    x_trips : list strip; x_shapes : list shape; x_warnings : list warning }.
 
 (* ---------- scalars ---------- *)
-(* parseGtfsTimeToDuration on ASCII input: digits accumulate into the current of three pieces, ':' advances (a third ':' fails),
-   ASCII white space is skipped, anything else fails; "" fails.  Result in nanoseconds. *)
+(* parseGtfsTimeToDuration: the cell is read rune by rune (Go's `range s`): digits accumulate into the current of three
+   pieces, ':' advances (a third ':' fails), white space in the sense of unicode.IsSpace is skipped, anything else fails
+   (an invalid UTF-8 byte reads as U+FFFD, which is not white space); "" fails.  Result in nanoseconds.
+   unicode.IsSpace is: TAB LF VT FF CR SPACE, U+0085, U+00A0, U+1680, U+2000..U+200A, U+2028, U+2029, U+202F, U+205F, U+3000;
+   space2 / space3 recognise the UTF-8 encodings of the non-ASCII ones (no other encoding of them is valid UTF-8). *)
 Definition ascii_space (c : Z) : bool := ((9 <=? c) && (c <=? 13)) || (c =? 32).
+Definition space2 (c1 c2 : Z) : bool := (c1 =? 194) && ((c2 =? 133) || (c2 =? 160)).
+Definition space3 (c1 c2 c3 : Z) : bool :=
+  ((c1 =? 225) && (c2 =? 154) && (c3 =? 128)) ||
+  ((c1 =? 226) && (c2 =? 128) && (((128 <=? c3) && (c3 <=? 138)) || (c3 =? 168) || (c3 =? 169) || (c3 =? 175))) ||
+  ((c1 =? 226) && (c2 =? 129) && (c3 =? 159)) ||
+  ((c1 =? 227) && (c2 =? 128) && (c3 =? 128)).
 Fixpoint time_pieces (l : list ascii) (i : nat) (p0 p1 p2 : Z) : option (Z * Z * Z) :=
   match l with
   | [] => Some (p0, p1, p2)
@@ -60,7 +69,15 @@ Fixpoint time_pieces (l : list ascii) (i : nat) (p0 p1 p2 : Z) : option (Z * Z *
       end
     else if c =? 58 then (match i with S (S _) => None | _ => time_pieces r (S i) p0 p1 p2 end)
     else if ascii_space c then time_pieces r i p0 p1 p2
-    else None
+    else match r with
+         | b :: r1 =>
+           if space2 c (bval b) then time_pieces r1 i p0 p1 p2
+           else match r1 with
+                | d :: r2 => if space3 c (bval b) (bval d) then time_pieces r2 i p0 p1 p2 else None
+                | [] => None
+                end
+         | [] => None
+         end
   end.
 Definition parse_gtfs_time (s : string) : option Z :=
   match s with
